@@ -188,6 +188,78 @@ theorem C45_pipeline (repl : List String) (sets : List (List Matcher)) (gs : Lis
     exact ⟨{ o' with rules := dedupRules repl o'.rules }, List.mem_map.mpr ⟨o', ho', rfl⟩,
       by rw [key_with_rules, hk', hk], r, hr, hs⟩
 
+/-! ### from the request strings to the matcher sets -/
+
+/-- the selector loop keeps one set per `match[]` string, in order, none dropped or left empty:
+    it succeeds iff every string parses, and then the sets are exactly the parse results -/
+theorem assembleSets_spec : ∀ (sels : List (Option (List Matcher))) (sets : List (List Matcher)),
+    assembleSets sels = some sets ↔ sels = sets.map some
+  | [], sets => by
+    cases sets <;> simp [assembleSets]
+  | none :: rest, sets => by
+    cases sets <;> simp [assembleSets]
+  | some ms :: rest, sets => by
+    cases sets with
+    | nil => simp [assembleSets]
+    | cons t ts =>
+      simp only [assembleSets, Option.map_eq_some_iff, List.map_cons, List.cons.injEq, Option.some.injEq]
+      constructor
+      · rintro ⟨a, ha, h1, h2⟩
+        exact ⟨h1, by rw [← h2]; exact (assembleSets_spec rest a).mp ha⟩
+      · rintro ⟨h1, h2⟩
+        exact ⟨ts, (assembleSets_spec rest ts).mpr h2, h1, rfl⟩
+
+/-- an unparsable `match[]` string fails the request -/
+theorem assembleSets_none (sels : List (Option (List Matcher))) (h : none ∈ sels) : assembleSets sels = none := by
+  induction sels with
+  | nil => simp at h
+  | cons a rest ih =>
+    cases a with
+    | none => simp [assembleSets]
+    | some ms =>
+      have : none ∈ rest := by simpa using h
+      simp [assembleSets, ih this]
+
+/-- repeating a selector (a byte-identical string, another spelling, another matcher order — anything
+    that parses to matchers accepting the same values) does not change which rules match -/
+theorem matchesOr_dup (sets : List (List Matcher)) (s : List Matcher) (hs : s ∈ sets) (l : List Label) :
+    matchesOr (sets ++ [s]) l = matchesOr sets l := by
+  cases sets with
+  | nil => simp at hs
+  | cons a rest =>
+    simp only [matchesOr, matchesAny, List.cons_append, List.isEmpty_cons, Bool.false_eq_true, if_false,
+      List.any_cons, List.any_append, List.any_nil, Bool.or_false]
+    have : setMatches (nonTemplated l) s = true → (setMatches (nonTemplated l) a || rest.any (setMatches (nonTemplated l))) = true := by
+      intro h
+      rcases List.mem_cons.mp hs with rfl | hr
+      · simp [h]
+      · simp only [Bool.or_eq_true]
+        exact Or.inr (List.any_eq_true.mpr ⟨s, hr, h⟩)
+    cases h1 : setMatches (nonTemplated l) s with
+    | false => simp
+    | true => simp [this h1]
+
+/-- **The Rules API from the request strings**: when every `match[]` string parses, `GRPCClient.Rules`
+    answers `C45_pipeline`'s result for exactly the parsed sets — one per string, duplicates included,
+    nothing skipped or left empty (a nil set would match every rule) —, and it fails when one does not. -/
+theorem C45_request (repl : List String) (sels : List (Option (List Matcher))) (gs : List Group) :
+    (∀ sets, sels = sets.map some →
+        rulesRequest true true repl sels gs = some (rulesPipeline true true repl sets gs)) ∧
+    (none ∈ sels → rulesRequest true true repl sels gs = none) := by
+  constructor
+  · intro sets h
+    simp [rulesRequest, (assembleSets_spec sels sets).mpr h]
+  · intro h
+    simp [rulesRequest, assembleSets_none sels h]
+
+/-- Regenerated obligation: the loop of `GRPCClient.Rules` over `req.MatcherString` — the slice is
+    allocated with one slot per string and EVERY iteration assigns its slot from
+    `extpromql.ParseMetricSelector(s)`; the only other statements are the error check and its
+    return: no `continue`, no `break`, no condition that skips an assignment (`assembleSets`). -/
+theorem C45_selector_loop_fact : Thanos.Facts.rulesSelectorLoop =
+    ["matcherSets := make([][]*labels.Matcher, len(req.MatcherString))", "range req.MatcherString",
+     "matcherSets[i], err = extpromql.ParseMetricSelector(s)", "if err != nil", "return"] := by decide
+
 /-- Regenerated obligations: the `return` statements of `rules.matches` in source order, and
     where `template.New("label")` is called (function body or the per-label closure) — they say the
     source has the repaired loop (`true` for no sets, `true` inside the loop over sets, `false` at
@@ -203,5 +275,7 @@ example : codeMatches false true [[⟨"a", fun v => v == "1"⟩], [⟨"a", fun v
 example : matchesOr [[⟨"a", fun v => v == "1"⟩]] [⟨"a", "1", .templ⟩] = false := by decide
 example : ∀ x ∈ [(⟨"a", "1", .plain⟩ : Label), ⟨"b", "{{ .X }}", .templ⟩], x.cls ≠ .emptyText ∧ x.cls ≠ .emptyOther := by decide
 example : ([[⟨"a", fun v => v == "1"⟩]] : List (List Matcher)).length ≤ 1 := by decide
+example : (assembleSets [some [⟨"a", fun v => v == "1"⟩], some [⟨"a", fun v => v == "1"⟩]]).map List.length = some 2 := by decide
+example : (assembleSets [some [⟨"a", fun v => v == "1"⟩], none]).isNone = true := by decide
 
 end Thanos.Rules
